@@ -198,6 +198,14 @@ func (e *Engine) runFunc(fn *ssa.Function, fc *FuncContract) {
 	}
 	env := e.contractEnv(st, fc, fn.Signature, fr.params)
 	env.fr = nil
+	// a closure's preconditions may speak about the variables it captures (their values at entry)
+	for _, fv := range fn.FreeVars {
+		if pt := derefType(fv.Type()); pt != nil {
+			if _, taken := env.vars[fv.Name()]; !taken {
+				env.vars[fv.Name()] = st.load(fr.regs[fv].T, pt, "")
+			}
+		}
+	}
 	for _, r := range fc.Requires {
 		t, err := e.evalBool(st, env, r.Expr)
 		if err != nil {
